@@ -47,10 +47,12 @@ ASSUMPTIONS = [
 BOUNDS = {
     "quick": "2-d Cartesian, fracture subsets {} {0} {0,1}; unit square with non-matching "
     "fracture (x2) and mortar (x3) refinement, {0} {0,1}; families flow, mass+energy; "
-    "compressible/incompressible; gravity off/on; 6 state letters x 2 upwind modes",
+    "compressible/incompressible; gravity off/on; 6 state letters x 2 upwind modes; plus the "
+    "differentiable TPFA flux laws (DarcysLawAd, FouriersLawAd) on Cartesian {0} {0,1}",
     "thorough": "quick + 2-d Cartesian {1}; simplex {0} {2} {0,1,2}; 3-d cube {} {0} {0,1} "
     "{0,1,2}; 3-d simplex cube with one fracture cut by a vertical well (codimension-2 well "
-    "interfaces); + poromechanics / thermoporomechanics on fractured Cartesian grids",
+    "interfaces); + poromechanics / thermoporomechanics on fractured Cartesian grids; "
+    "differentiable TPFA flux laws also on {} , non-matching {0,1}, simplex {0}, 3-d {0}",
 }
 MIN_CLASSES = 4
 CHUNK = 1
@@ -73,6 +75,14 @@ def cases(tier):
             for fluid in ("comp", "incomp"):
                 for grav in (False, True):
                     out.append({"cfg": _cfg(fam, dim, fr, grid, fluid, grav)})
+    # differentiable two-point flux laws (DarcysLawAd / FouriersLawAd, TPFA base): the
+    # interface fluxes must still enter the higher-dimensional balance as Neumann data
+    adgeoms = [(2, [0], "cart"), (2, [0, 1], "cart")]
+    if tier == "thorough":
+        adgeoms += [(2, [], "cart"), (2, [0, 1], "nonmatch"), (2, [0], "simplex"), (3, [0], "cart")]
+    for fam in ("flow", "mae"):
+        for dim, fr, grid in adgeoms:
+            out.append({"cfg": _cfg(fam, dim, fr, grid, "comp", False, "adtpfa")})
     if tier == "thorough":
         for fam in ("flow", "mae"):
             out.append({"cfg": _cfg(fam, 3, [2], "well3d", "comp", True)})
@@ -272,4 +282,9 @@ def run_case(case) -> Outcome:
 
 
 def known_finding(case, viol):
+    cfg = case.get("cfg", {})
+    d = viol.get("detail", viol) if isinstance(viol, dict) else {}
+    if (cfg.get("laws") == "adtpfa" and cfg.get("fam") in ("mae", "thm") and cfg.get("fracs")
+            and d.get("quantity") == "energy"):
+        return "C04-fouriers-law-ad-internal-boundary"
     return None
